@@ -15,12 +15,46 @@ FINDINGS (proved here, reproduced on real fairlearn by harness/props/c02.py):
       `ratio_between_le_one_partial` (hypothesis: the group maximum is not negative).
   F8b `ratio(to_overall)` uses `ratio_sub_one r`, which equals `min r (1/r)` exactly when
       `r ∉ (-1,0)` (`ratioSubOne_eq_min_iff`); for a negative quotient in (-1,0) it keeps `r`.
+
+CLAUSE → THEOREM TABLE (review R1; every theorem is per control stratum `c ∈ strata t` = "within every
+control-feature combination"; `t` is an ARBITRARY table unless stated, and `ofFrame_finite` /
+`wmean_frame_finite` discharge the side conditions for the tables MetricFrame builds from data)
+  group_min / group_max = min / max of the non-empty groups   groupMin_spec, groupMax_spec, groupMin_le_groupMax,
+                                                               groupMin_groupMax_cases (NaN together)
+  difference(between_groups) = group_max − group_min           difference_between_eq, difference_between_nan
+  difference(to_overall) = largest |group − overall|           difference_overall_eq, difference_overall_nan
+  ratio(between_groups) = group_min / group_max                ratio_between_eq (IEEE quotient of ANY two extended values),
+                                                               ratio_between_cases (which of NaN / −inf / number; never +inf)
+  ratio(to_overall) = smallest min(r, 1/r), r = group/overall  ratio_overall_eq + ratioSubOne_eq_min_of_nonneg / _pinf_eq_min;
+      FALSE of the code for r ∈ (−1,0) (F8b)                   ratioSubOne_eq_min_iff, ratioSubOne_ne_min_of_neg (witness for every such r)
+  errors='raise' = errors='coerce' on scalar metrics           raise_eq_coerce; non-scalar: raise_fails_coerce_answers, frame_raise_fails_iff
+  difference ≥ 0                                               difference_nonneg, difference_cases (NaN or number ≥ 0, never ±inf)
+  ratio ≤ 1   to_overall                                       ratio_overall_le_one, ratio_overall_leOne (all tables, extended values)
+              between_groups: FALSE (F8)                       ratio_le_one_false, ratio_gt_one_of_all_negative;
+                 PARTIAL: some group value ≥ 0                 ratio_between_le_one_partial, ratio_between_leOne
+  ratio ≥ 0 for non-negative metrics                           ratio_between_nonneg, ratio_overall_nonneg
+  between_groups difference ≤ 2 × to_overall difference        between_le_two_overall
+  weighted-mean metrics: to_overall ≤ between_groups           overall_le_between_of_weighted_mean_data (ANY dataset, weights ≥ 0, no side
+                                                               conditions; through C01.stratum_partition), wmean_overall_between_nonneg;
+                                                               older form with weights > 0: overall_le_between_of_weighted_mean;
+                                                               selection rate / accuracy / mean prediction ARE such means:
+                                                               selrate_frame_is_wmean, named_metrics_are_wmean, eval_*_eq_wmean
+  callable-vs-dict / several metric columns                    frame_*_col, frame_all_results_col (column j of the frame = the single-metric model);
+                                                               the bare-callable unwrapping `_extract_result` and the result cache keyed by
+                                                               (method, errors) are NOT in the Lean model: covered only by the correspondence
+                                                               (all 12 (method, errors) variants + result type read on every case)
+  zero denominators / all-equal groups                         ratio_between_cases, single_group, ratio_between_eq_one_iff, difference_*_eq_zero_iff
+  the model IS the lifted source text                          applyGroupingGen_eq_model, differenceGen_eq_model, ratioGen_eq_model
+NOT COVERED by theorems with a `FiniteCells` hypothesis: metric values ±inf (the model computes them in IEEE
+arithmetic and `ratio_between_eq`, `ratio_overall_eq`, `ratio_overall_leOne`, `raise_eq_coerce` hold for them, the
+order/bounds theorems do not speak about them; the generator does not produce ±inf cells).
 -/
 import FairModel.Lemmas.Aggregate
 import FairModel.Lemmas.AggregateGen
 import FairModel.Lemmas.AggregateFrame
 import FairModel.Lemmas.AggregateMore
 import FairModel.Lemmas.WeightedMean
+import FairModel.Lemmas.C02Review
 import FairModel.Properties.C01
 import FairModel.Model.MetricPool
 
@@ -203,6 +237,12 @@ theorem ratioSubOne_eq_min_of_nonneg (r : Rat) (hr : 0 ≤ r) :
 
 theorem ratioSubOne_pinf_eq_min :
     AggregateSpec.ratioSubOne pinf = minSkip2 pinf (XR.div (fin 1) pinf) := by decide +kernel
+
+/-- the equation also holds for the two remaining extended quotients (-inf: group < 0 = overall;
+    NaN: 0/0 or an empty group) -/
+theorem ratioSubOne_ninf_nan_eq_min :
+    AggregateSpec.ratioSubOne ninf = minSkip2 ninf (XR.div (fin 1) ninf) ∧
+    AggregateSpec.ratioSubOne nan = minSkip2 nan (XR.div (fin 1) nan) := by decide +kernel
 
 /-- ... and, for finite quotients, EXACTLY when `r ∉ (-1, 0)` (finding F8b: a negative quotient
     in (-1,0) is kept as `r` although `1/r` is smaller) -/
@@ -823,5 +863,435 @@ example : (AggFrame.colTab exF 0).othersNonscalar = true := by decide +kernel
 -- single group, zero value: ratio 0/0 = NaN
 example : ratio .between .coerce ⟨0, [(["a"], .scalar (fin 0)), (["b"], .scalar nan)], [([], .scalar (fin 0))], false⟩
     = some [([], nan)] := by decide +kernel
+
+
+/-! ## Review additions (R1): full-strength forms, error/inf branches, data-level corollaries -/
+
+/-! ### names cited by `known_findings.json` (F8 / F8b) -/
+
+/-- F8 (name cited by known_findings.json): all group values negative, not all equal ⇒ ratio > 1 -/
+theorem ratio_gt_one_of_all_negative (e : Errors) (t : Tables)
+    (hs : e = .coerce ∨ hasNonscalar t = false) (c : Key) (hc : c ∈ strata t) (m M : Rat)
+    (hm : valueAt (groupMin e t) c = some (fin m)) (hM : valueAt (groupMax e t) c = some (fin M))
+    (hneg : M < 0) (hlt : m < M) :
+    valueAt (ratio .between e t) c = some (fin (m / M)) ∧ 1 < m / M :=
+  ratio_between_gt_one_of_all_negative e t hs c hc m M hm hM hneg hlt
+
+-- hypotheses of F8 met by a concrete table with two DIFFERENT group values (m = -3 ≠ M = -2)
+example : valueAt (groupMin .coerce negTable) [] = some (fin (-3)) ∧
+    valueAt (groupMax .coerce negTable) [] = some (fin (-2)) ∧ ([] : Key) ∈ strata negTable := by decide +kernel
+
+/-- F8b (name cited by known_findings.json): for EVERY quotient r ∈ (-1,0) the code's `ratio_sub_one`
+    returns `r`, while `min(r, 1/r) = 1/r < r` -/
+theorem ratioSubOne_ne_min_of_neg (r : Rat) (h1 : -1 < r) (h0 : r < 0) :
+    AggregateSpec.ratioSubOne (fin r) = fin r ∧
+    minSkip2 (fin r) (XR.div (fin 1) (fin r)) = fin (1 / r) ∧ 1 / r < r := by
+  have hne : r ≠ 0 := ne_of_lt h0
+  have hlt : 1 / r < r := by
+    rw [div_lt_iff_of_neg h0]; nlinarith
+  refine ⟨?_, ?_, hlt⟩
+  · rw [ratioSubOne_fin, if_neg (by linarith)]
+  · rw [div_fin_fin, if_neg hne, minSkip2_fin_fin, if_pos hlt]
+
+example : (-1 : Rat) < -1/2 ∧ (-1/2 : Rat) < 0 := by norm_num
+
+/-! ### the results on EXTENDED values (no `= some (fin r)` premise): which of NaN / ±inf can occur -/
+
+/-- ratio(to_overall) is NaN, -inf, or a finite number ≤ 1 — NEVER +inf and never a finite number > 1;
+    for every table (±inf cells included), every stratum. -/
+theorem ratio_overall_leOne (e : Errors) (t : Tables) (hs : hasNonscalar t = false)
+    (c : Key) (hc : c ∈ strata t) :
+    ∃ x, valueAt (ratio .toOverall e t) c = some x ∧ LeOne x :=
+  ⟨_, ratio_overall_at e t hs hc, ratioOverallOf_leOne _ _⟩
+
+/-- ratio(between_groups) on a finite table, ALL cases: NaN iff no non-empty group or min = max = 0
+    (0/0); -inf iff max = 0 > min; otherwise the exact quotient min/max.  Never +inf. -/
+theorem ratio_between_cases (e : Errors) (t : Tables) (hs : e = .coerce ∨ hasNonscalar t = false)
+    (hf : FiniteCells t) (c : Key) (hc : c ∈ strata t) :
+    (fins (vals t c) = [] ∧ valueAt (ratio .between e t) c = some nan) ∨
+    ∃ m M, valueAt (groupMin e t) c = some (fin m) ∧ valueAt (groupMax e t) c = some (fin M) ∧ m ≤ M ∧
+      ((M = 0 ∧ m = 0 ∧ valueAt (ratio .between e t) c = some nan) ∨
+       (M = 0 ∧ m < 0 ∧ valueAt (ratio .between e t) c = some ninf) ∨
+       (M ≠ 0 ∧ valueAt (ratio .between e t) c = some (fin (m / M)))) := by
+  have hfn := finNan_vals hf c
+  rw [ratio_between_at e t hs hc, groupMin_at e t hs hc, groupMax_at e t hs hc]
+  rcases min_max_together hfn with ⟨h1, h2⟩ | ⟨m, M, h1, h2, hle⟩
+  · left; exact ⟨minSkip_eq_nan hfn h1, by rw [h1, h2]; rfl⟩
+  · right
+    refine ⟨m, M, by rw [h1], by rw [h2], hle, ?_⟩
+    rw [h1, h2]
+    rcases div_min_max_cases hle with ⟨a, b, h⟩ | ⟨a, b, h⟩ | ⟨a, h⟩
+    · left; exact ⟨a, b, by rw [h]⟩
+    · right; left; exact ⟨a, b, by rw [h]⟩
+    · right; right; exact ⟨a, by rw [h]⟩
+
+/-- "ratio ≤ 1" for between_groups at full strength on extended values: unless EVERY non-empty group
+    value is negative (F8), the result is NaN, -inf or a finite number ≤ 1. -/
+theorem ratio_between_leOne (e : Errors) (t : Tables) (hs : e = .coerce ∨ hasNonscalar t = false)
+    (hf : FiniteCells t) (c : Key) (hc : c ∈ strata t) (hnn : ∃ q ∈ fins (vals t c), 0 ≤ q) :
+    ∃ x, valueAt (ratio .between e t) c = some x ∧ LeOne x := by
+  obtain ⟨q, hq, hq0⟩ := hnn
+  have hfn := finNan_vals hf c
+  rcases ratio_between_cases e t hs hf c hc with ⟨_, h⟩ | ⟨m, M, hm, hM, hle, h⟩
+  · exact ⟨_, h, Or.inl rfl⟩
+  · rw [groupMax_at e t hs hc] at hM
+    injection hM with hM
+    have hMq : q ≤ M := (maxSkip_eq_fin hfn hM).2 q hq
+    rcases h with ⟨_, _, h⟩ | ⟨_, _, h⟩ | ⟨hM0, h⟩
+    · exact ⟨_, h, Or.inl rfl⟩
+    · exact ⟨_, h, Or.inr (Or.inl rfl)⟩
+    · have hpos : 0 < M := lt_of_le_of_ne (le_trans hq0 hMq) (Ne.symm hM0)
+      exact ⟨_, h, Or.inr (Or.inr ⟨_, rfl, by rw [div_le_one hpos]; exact hle⟩)⟩
+
+/-- difference (both methods) on a finite scalar table is NaN or a finite number ≥ 0 — never ±inf -/
+theorem difference_cases (m : Method) (e : Errors) (t : Tables) (hs : hasNonscalar t = false)
+    (hf : FiniteCells t) (c : Key) (hc : c ∈ strata t) :
+    ∃ x, valueAt (difference m e t) c = some x ∧ (x = nan ∨ ∃ d, x = fin d ∧ 0 ≤ d) := by
+  have hfn := finNan_vals hf c
+  cases m with
+  | between =>
+    refine ⟨_, difference_between_at e t (Or.inr hs) hc, ?_⟩
+    rcases min_max_together hfn with ⟨h1, _⟩ | ⟨m, M, h1, h2, hle⟩
+    · left; rw [h1, diffOf_nan]
+    · right; exact ⟨M - m, by rw [h1, diffOf_min hfn h1 h2], by linarith⟩
+  | toOverall =>
+    refine ⟨_, difference_overall_at e t hs hc, ?_⟩
+    rcases overallAt_finNan hf c with ho | ⟨o, ho⟩
+    · left; rw [ho, diffOf_nan]
+    · rw [ho]
+      rcases diffOf_spec hfn o with ⟨_, hn⟩ | ⟨D, hD, ⟨q, _, hq⟩, _⟩
+      · left; exact hn
+      · right; exact ⟨D, hD, by rw [hq]; exact abs_nonneg _⟩
+
+/-- group_min ≤ group_max and both are NaN together -/
+theorem groupMin_groupMax_cases (e : Errors) (t : Tables) (hs : e = .coerce ∨ hasNonscalar t = false)
+    (hf : FiniteCells t) (c : Key) (hc : c ∈ strata t) :
+    (valueAt (groupMin e t) c = some nan ∧ valueAt (groupMax e t) c = some nan) ∨
+    ∃ m M, valueAt (groupMin e t) c = some (fin m) ∧ valueAt (groupMax e t) c = some (fin M) ∧ m ≤ M := by
+  rw [groupMin_at e t hs hc, groupMax_at e t hs hc]
+  rcases min_max_together (finNan_vals hf c) with ⟨h1, h2⟩ | ⟨m, M, h1, h2, hle⟩
+  · left; exact ⟨by rw [h1], by rw [h2]⟩
+  · right; exact ⟨m, M, by rw [h1], by rw [h2], hle⟩
+
+/-! ### the tables MetricFrame builds from data, for ANY metric function `f`
+
+`ofFrame ncf nsf f rows` is `DisaggregatedResult.create` (model of C01).  Every theorem above is about
+an arbitrary `Tables`, hence applies to it; the two side conditions `FiniteCells` / `hasNonscalar = false`
+follow from a property of `f` alone: -/
+
+/-- every by_group cell is NaN (empty intersection) or `f` of the rows with exactly that index tuple -/
+theorem ofFrame_byGroup_cell {α : Type} (ncf nsf : Nat) (hn : 0 < ncf + nsf) (f : List α → Cell)
+    (rows : List (Row α)) (e : Key × Cell) (he : e ∈ (ofFrame ncf nsf f rows).byGroup) :
+    e.2 = if rowsOf Row.key e.1 rows = [] then Cell.nan else f (slice (rowsOf Row.key e.1 rows)) :=
+  C01.applyFunctions_cell Cell.nan Row.key (ncf + nsf) hn f rows e.1 e.2 he
+
+/-- every overall cell is `f` of all rows (no control features) / of the rows of that control
+    combination, or NaN for an unobserved combination -/
+theorem ofFrame_overall_cell {α : Type} (ncf nsf : Nat) (f : List α → Cell)
+    (rows : List (Row α)) (e : Key × Cell) (he : e ∈ (ofFrame ncf nsf f rows).overall) :
+    (ncf = 0 ∧ e = ([], f (slice rows))) ∨
+    (0 < ncf ∧ e.2 = if rowsOf Row.ckey e.1 rows = [] then Cell.nan else f (slice (rowsOf Row.ckey e.1 rows))) := by
+  by_cases h0 : ncf = 0
+  · left
+    refine ⟨h0, ?_⟩
+    have : e ∈ [(([] : Key), f (slice rows))] := by
+      simpa [ofFrame, overall, applyFunctions, h0] using he
+    simpa using this
+  · right
+    exact ⟨by omega, C01.applyFunctions_cell Cell.nan Row.ckey ncf (by omega) f rows e.1 e.2 he⟩
+
+/-- If the metric returns a finite number or NaN on every sub-list of the data, the frame built from
+    ANY dataset satisfies both side conditions of the theorems of this file. -/
+theorem ofFrame_finite {α : Type} (ncf nsf : Nat) (hn : 0 < ncf + nsf) (f : List α → Cell)
+    (rows : List (Row α))
+    (hfin : ∀ ds : List α, (∀ d ∈ ds, ∃ r ∈ rows, r.dat = d) →
+      f ds = .scalar nan ∨ ∃ q, f ds = .scalar (fin q)) :
+    FiniteCells (ofFrame ncf nsf f rows) ∧ hasNonscalar (ofFrame ncf nsf f rows) = false := by
+  have hsub : ∀ (kf : Row α → Key) (k : Key), ∀ d ∈ slice (rowsOf kf k rows), ∃ r ∈ rows, r.dat = d := by
+    intro kf k d hd
+    obtain ⟨r, hr, rfl⟩ := List.mem_map.mp hd
+    exact ⟨r, (mem_rowsOf.mp hr).1, rfl⟩
+  have hall : ∀ d ∈ slice rows, ∃ r ∈ rows, r.dat = d := by
+    intro d hd
+    obtain ⟨r, hr, rfl⟩ := List.mem_map.mp hd
+    exact ⟨r, hr, rfl⟩
+  have hby : ∀ e ∈ (ofFrame ncf nsf f rows).byGroup, e.2 = .scalar nan ∨ ∃ q, e.2 = .scalar (fin q) := by
+    intro e he
+    rw [ofFrame_byGroup_cell ncf nsf hn f rows e he]
+    split
+    · left; rfl
+    · exact hfin _ (hsub Row.key e.1)
+  have hov : ∀ e ∈ (ofFrame ncf nsf f rows).overall, e.2 = .scalar nan ∨ ∃ q, e.2 = .scalar (fin q) := by
+    intro e he
+    rcases ofFrame_overall_cell ncf nsf f rows e he with ⟨_, rfl⟩ | ⟨_, h⟩
+    · exact hfin _ hall
+    · rw [h]
+      split
+      · left; rfl
+      · exact hfin _ (hsub Row.ckey e.1)
+  refine ⟨⟨hby, hov⟩, ?_⟩
+  have hb' : (ofFrame ncf nsf f rows).byGroup.any (fun e => isNonscalar e.2) = false := by
+    rw [List.any_eq_false]
+    intro e he
+    rcases hby e he with h | ⟨q, h⟩ <;> rw [h] <;> simp [isNonscalar]
+  have ho' : (ofFrame ncf nsf f rows).overall.any (fun e => isNonscalar e.2) = false := by
+    rw [List.any_eq_false]
+    intro e he
+    rcases hov e he with h | ⟨q, h⟩ <;> rw [h] <;> simp [isNonscalar]
+  unfold hasNonscalar
+  rw [hb', ho']
+  rfl
+
+/-! ### weighted-mean metrics with NON-NEGATIVE weights, without side conditions
+
+`wmean_overall_between` / `overall_le_between_of_weighted_mean` above assume strictly positive weights
+and take `hasNonscalar = false` / `FiniteCells` as hypotheses.  Replay on fairlearn (selection_rate and
+mean_prediction with `sample_weight=[0,0,1,1]`, groups a a b b): the zero-weight group has the value
+0/0 = NaN, is skipped by every aggregate, and the clause still holds.  The theorems below cover that:
+weights ≥ 0, groups (or strata) of total weight 0 are NaN cells, and the two side conditions are
+PROVED for the frame instead of assumed. -/
+
+open MetricPool in
+theorem wmean_of_nonneg (q : Dat → Rat) (ds : List Dat) (hw : ∀ d ∈ ds, 0 ≤ d.p0) :
+    wmean q ds = if WeightedMean.den (·.p0) ds = 0 then Cell.nan
+      else .scalar (fin (WeightedMean.num q (·.p0) ds / WeightedMean.den (·.p0) ds)) := by
+  have h1 : sumBy (·.p0) ds = WeightedMean.den (·.p0) ds := rfl
+  have h2 : sumBy (fun d => q d * d.p0) ds = WeightedMean.num q (·.p0) ds := rfl
+  unfold wmean quot
+  rw [div_fin_fin, h1, h2]
+  by_cases hd : WeightedMean.den (·.p0) ds = 0
+  · simp only [hd, if_true, WeightedMean.num_eq_zero_of_den_zero q (·.p0) ds hw hd]
+    rfl
+  · simp only [hd, if_false]
+
+open MetricPool in
+/-- a weighted mean is a finite number or NaN on every list with non-negative weights -/
+theorem wmean_finNan (q : Dat → Rat) (ds : List Dat) (hw : ∀ d ∈ ds, 0 ≤ d.p0) :
+    wmean q ds = .scalar nan ∨ ∃ x, wmean q ds = .scalar (fin x) := by
+  rw [wmean_of_nonneg q ds hw]
+  split
+  · left; rfl
+  · right; exact ⟨_, rfl⟩
+
+open MetricPool in
+/-- the frame of a weighted-mean metric built from ANY dataset with non-negative weights satisfies the
+    side conditions of all theorems of this file -/
+theorem wmean_frame_finite (q : Dat → Rat) (ncf nsf : Nat) (hn : 0 < ncf + nsf)
+    (rows : List (Row Dat)) (hw : ∀ r ∈ rows, 0 ≤ r.dat.p0) :
+    FiniteCells (ofFrame ncf nsf (wmean q) rows) ∧ hasNonscalar (ofFrame ncf nsf (wmean q) rows) = false :=
+  ofFrame_finite ncf nsf hn (wmean q) rows (fun ds hsub => wmean_finNan q ds (by
+    intro d hd
+    obtain ⟨r, hr, rfl⟩ := hsub d hd
+    exact hw r hr))
+
+open MetricPool in
+/-- NON-NEGATIVE weights: the overall value of every stratum lies between the smallest and the largest
+    DEFINED group value of that stratum (groups of total weight 0 are NaN and skipped). -/
+theorem wmean_overall_between_nonneg (q : Dat → Rat) (ncf nsf : Nat) (hn : 0 < ncf + nsf)
+    (rows : List (Row Dat)) (hwf : WF ncf nsf rows) (hw : ∀ r ∈ rows, 0 ≤ r.dat.p0)
+    (c : Key) (o m M : Rat)
+    (ho : overallAt (ofFrame ncf nsf (wmean q) rows) c = fin o)
+    (hm : minSkip (vals (ofFrame ncf nsf (wmean q) rows) c) = fin m)
+    (hM : maxSkip (vals (ofFrame ncf nsf (wmean q) rows) c) = fin M) : m ≤ o ∧ o ≤ M := by
+  set t := ofFrame ncf nsf (wmean q) rows with ht
+  have hwslice : ∀ (kf : Row Dat → Key) (k : Key), ∀ d ∈ slice (rowsOf kf k rows), 0 ≤ d.p0 := by
+    intro kf k d hd
+    obtain ⟨r, hr, rfl⟩ := List.mem_map.mp hd
+    exact hw r (mem_rowsOf.mp hr).1
+  -- the cell of index tuple k, uniformly (an empty intersection has total weight 0)
+  have hby : ∀ e ∈ t.byGroup, e.2 =
+      if WeightedMean.den (·.p0) (slice (rowsOf Row.key e.1 rows)) = 0 then Cell.nan
+      else .scalar (fin (WeightedMean.num q (·.p0) (slice (rowsOf Row.key e.1 rows)) /
+                         WeightedMean.den (·.p0) (slice (rowsOf Row.key e.1 rows)))) := by
+    intro e he
+    rw [ofFrame_byGroup_cell ncf nsf hn (wmean q) rows e he]
+    by_cases hemp : rowsOf Row.key e.1 rows = []
+    · rw [if_pos hemp, hemp]; simp [slice]
+    · rw [if_neg hemp, wmean_of_nonneg q _ (hwslice Row.key e.1)]
+  have hfc : FinNan (vals t c) := finNan_vals (wmean_frame_finite q ncf nsf hn rows hw).1 c
+  have hcell : ∀ k ∈ C01.keys t.byGroup, k.take ncf = c →
+      WeightedMean.den (·.p0) (slice (rowsOf Row.key k rows)) ≠ 0 →
+      fin (WeightedMean.num q (·.p0) (slice (rowsOf Row.key k rows)) /
+           WeightedMean.den (·.p0) (slice (rowsOf Row.key k rows))) ∈ vals t c := by
+    intro k hk hpre hd
+    obtain ⟨e, he, rfl⟩ := List.mem_map.mp hk
+    simp only [vals, List.mem_map, List.mem_filter]
+    refine ⟨e, ⟨he, by simpa [stratumOf, ht, ofFrame] using hpre⟩, ?_⟩
+    rw [hby e he, if_neg hd]
+    rfl
+  obtain ⟨_, hlo⟩ := minSkip_eq_fin hfc hm
+  obtain ⟨_, hhi⟩ := maxSkip_eq_fin hfc hM
+  -- the overall cell of the stratum
+  have hov : WeightedMean.den (·.p0) (slice (rowsOf Row.ckey c rows)) ≠ 0 ∧
+      o = WeightedMean.num q (·.p0) (slice (rowsOf Row.ckey c rows)) /
+          WeightedMean.den (·.p0) (slice (rowsOf Row.ckey c rows)) := by
+    unfold overallAt at ho
+    split at ho
+    · next cell hl =>
+      have hmem := lookup_mem hl
+      have hcell' : cell = if WeightedMean.den (·.p0) (slice (rowsOf Row.ckey c rows)) = 0 then Cell.nan
+          else .scalar (fin (WeightedMean.num q (·.p0) (slice (rowsOf Row.ckey c rows)) /
+                             WeightedMean.den (·.p0) (slice (rowsOf Row.ckey c rows)))) := by
+        rcases ofFrame_overall_cell ncf nsf (wmean q) rows (c, cell) hmem with ⟨h0, he⟩ | ⟨_, he⟩
+        · injection he with hc0 hcell0
+          have hall : rowsOf Row.ckey c rows = rows := by
+            rw [hc0]
+            simp only [rowsOf, List.filter_eq_self, beq_iff_eq]
+            intro r hr
+            exact List.eq_nil_of_length_eq_zero (by rw [Row.ckey, (hwf r hr).1, h0])
+          rw [hall, hcell0]
+          exact wmean_of_nonneg q _ (fun d hd => by
+            obtain ⟨r, hr, rfl⟩ := List.mem_map.mp hd
+            exact hw r hr)
+        · simp only at he
+          rw [he]
+          by_cases hemp : rowsOf Row.ckey c rows = []
+          · rw [if_pos hemp, hemp]; simp [slice]
+          · rw [if_neg hemp, wmean_of_nonneg q _ (hwslice Row.ckey c)]
+      rw [hcell'] at ho
+      by_cases hd : WeightedMean.den (·.p0) (slice (rowsOf Row.ckey c rows)) = 0
+      · simp [hd, Cell.nan, coerce] at ho
+      · refine ⟨hd, ?_⟩
+        simp only [hd, if_false, coerce] at ho
+        injection ho with ho
+        exact ho.symm
+    · cases ho
+  obtain ⟨hcne, ho'⟩ := hov
+  have hpart := C01.stratum_partition Cell.nan ncf nsf hn (wmean q) rows hwf c
+  set ks := (C01.keys (byGroup Cell.nan ncf nsf (wmean q) rows)).filter (fun k => k.take ncf == c) with hks
+  have hpart' : (ks.flatMap (fun k => slice (rowsOf Row.key k rows))).Perm (slice (rowsOf Row.ckey c rows)) := by
+    have := hpart.map (·.dat)
+    rwa [List.map_flatMap] at this
+  rw [ho', ← WeightedMean.num_perm q (·.p0) hpart', ← WeightedMean.den_perm (·.p0) hpart']
+  apply WeightedMean.mean_between_nonneg q (·.p0) ks (fun k => slice (rowsOf Row.key k rows))
+  · intro k _ d hd; exact hwslice Row.key k d hd
+  · intro k hk hd
+    have hk' := List.mem_filter.mp hk
+    have hv := hcell k hk'.1 (by simpa using hk'.2) hd
+    exact ⟨hlo _ (mem_fins.mpr hv), hhi _ (mem_fins.mpr hv)⟩
+  · rw [WeightedMean.den_perm (·.p0) hpart']; exact hcne
+
+open MetricPool in
+/-- **The weighted-mean clause at full strength**: for a sample-weighted mean of a per-row quantity
+    (selection rate, accuracy, mean prediction, …), on the frame built from ANY dataset with any number
+    of sensitive / control features and NON-NEGATIVE weights, in every control stratum in which both
+    differences are numbers: to_overall difference ≤ between_groups difference.  No side conditions. -/
+theorem overall_le_between_of_weighted_mean_data (q : Dat → Rat) (ncf nsf : Nat) (hn : 0 < ncf + nsf)
+    (rows : List (Row Dat)) (hwf : WF ncf nsf rows) (hw : ∀ r ∈ rows, 0 ≤ r.dat.p0)
+    (e : Errors) (c : Key) (hc : c ∈ strata (ofFrame ncf nsf (wmean q) rows)) (db dov : Rat)
+    (hb : valueAt (difference .between e (ofFrame ncf nsf (wmean q) rows)) c = some (fin db))
+    (hov : valueAt (difference .toOverall e (ofFrame ncf nsf (wmean q) rows)) c = some (fin dov)) :
+    dov ≤ db := by
+  obtain ⟨hf, hs⟩ := wmean_frame_finite q ncf nsf hn rows hw
+  set t := ofFrame ncf nsf (wmean q) rows
+  have hfn := finNan_vals hf c
+  have hb' := hb
+  rw [difference_between_at e t (Or.inr hs) hc] at hb'
+  injection hb' with hb'
+  rcases min_max_together hfn with ⟨h1, _⟩ | ⟨m, M, h1, h2, _⟩
+  · rw [h1, diffOf_nan] at hb'; cases hb'
+  · have hov' := hov
+    rw [difference_overall_at e t hs hc] at hov'
+    injection hov' with hov'
+    rcases overallAt_finNan hf c with ho | ⟨o, ho⟩
+    · rw [ho, diffOf_nan] at hov'; cases hov'
+    · obtain ⟨hmo, hoM⟩ := wmean_overall_between_nonneg q ncf nsf hn rows hwf hw c o m M ho h1 h2
+      exact overall_le_between e t hs hf c hc m M o db dov
+        (by rw [groupMin_at e t (Or.inr hs) hc, h1]) (by rw [groupMax_at e t (Or.inr hs) hc, h2])
+        ho hmo hoM hb hov
+
+open MetricPool in
+/-- the three metrics the property names are such weighted means (restated at the data level):
+    the frames MetricFrame builds for selection rate / accuracy / mean prediction ARE `wmean` frames -/
+theorem named_metrics_are_wmean (ncf nsf : Nat) (rows : List (Row Dat)) :
+    ofFrame ncf nsf (eval .accuracy) rows = ofFrame ncf nsf (wmean (fun d => if d.y = d.pred then 1 else 0)) rows ∧
+    ofFrame ncf nsf (eval .meanpred) rows = ofFrame ncf nsf (wmean (·.pred)) rows := by
+  constructor
+  · have : eval .accuracy = wmean (fun d => if d.y = d.pred then 1 else 0) := funext eval_accuracy_eq_wmean
+    rw [this]
+  · have : eval .meanpred = wmean (·.pred) := funext eval_meanpred_eq_wmean
+    rw [this]
+
+/-- two metric functions that agree on every NON-EMPTY list give the same frame on a non-empty dataset
+    (MetricFrame never calls the metric on an empty slice: unobserved combinations are re-indexed NaN) -/
+theorem ofFrame_congr {α : Type} (ncf nsf : Nat) (f g : List α → Cell) (h : ∀ ds, ds ≠ [] → f ds = g ds)
+    (rows : List (Row α)) (hne : rows ≠ []) : ofFrame ncf nsf f rows = ofFrame ncf nsf g rows := by
+  have hgr : ∀ kf : Row α → Key, grouped kf f rows = grouped kf g rows := by
+    intro kf
+    unfold grouped
+    apply List.map_congr_left
+    intro k hk
+    have hk' : k ∈ rows.map kf := mem_uniq.mp hk
+    obtain ⟨r, hr, rfl⟩ := List.mem_map.mp hk'
+    have : slice (rowsOf kf (kf r) rows) ≠ [] := by
+      have hm : r ∈ rowsOf kf (kf r) rows := mem_rowsOf.mpr ⟨hr, rfl⟩
+      intro h0
+      have := List.map_eq_nil_iff.mp h0
+      rw [this] at hm; cases hm
+    rw [h _ this]
+  have hall : f (slice rows) = g (slice rows) := h _ (by simpa [slice] using hne)
+  have hap : ∀ (kf : Row α → Key) (n : Nat),
+      applyFunctions Cell.nan kf n f rows = applyFunctions Cell.nan kf n g rows := by
+    intro kf n
+    unfold applyFunctions
+    rw [hall, hgr kf]
+  unfold ofFrame byGroup overall
+  rw [hap Row.key, hap Row.ckey]
+
+open MetricPool in
+/-- … and so is the selection-rate frame of every non-empty dataset -/
+theorem selrate_frame_is_wmean (ncf nsf : Nat) (rows : List (Row Dat)) (hne : rows ≠ []) :
+    ofFrame ncf nsf (eval .selrate) rows = ofFrame ncf nsf (wmean (fun d => if d.pred = 1 then 1 else 0)) rows :=
+  ofFrame_congr ncf nsf _ _ (fun ds hds => eval_selrate_eq_wmean ds hds) rows hne
+
+/-! ### Non-vacuity of the hypotheses (all of them simultaneously, non-degenerate inputs) -/
+
+-- `exT` (2 strata, NaN cells, stratum "k" with two DIFFERENT finite group values 1/2 ≠ 1) meets the three
+-- standing hypotheses of the table theorems at once
+example : hasNonscalar exT = false ∧ FiniteCells exT ∧ ["k"] ∈ strata exT ∧ ["m"] ∈ strata exT :=
+  ⟨by decide +kernel, finiteCells_of_B (by decide +kernel), by decide +kernel, by decide +kernel⟩
+-- hm / hM of `difference_between_eq`, `groupMin_le_groupMax`, `overall_le_between` with m ≠ M, and ho, hmo, hoM
+example : valueAt (groupMin .raise exT) ["k"] = some (fin (1/2)) ∧ valueAt (groupMax .raise exT) ["k"] = some (fin 1) ∧
+    overallAt exT ["k"] = fin (2/3) ∧ ((1/2 : Rat) ≤ 2/3 ∧ (2/3 : Rat) ≤ 1) := by
+  refine ⟨by decide +kernel, by decide +kernel, by decide +kernel, by norm_num⟩
+-- hb / ho of `between_le_two_overall` and `overall_le_between`: both differences are numbers, 1/3 ≤ 1/2 ≤ 2·1/3
+example : valueAt (difference .between .raise exT) ["k"] = some (fin (1/2)) ∧
+    valueAt (difference .toOverall .raise exT) ["k"] = some (fin (1/3)) := by
+  constructor <;> decide +kernel
+-- `ratio_between_le_one_partial` / `ratio_*_nonneg`: max = 1 ≥ 0, ratio = 1/2; to_overall ratio = 2/3 (> between)
+example : valueAt (ratio .between .raise exT) ["k"] = some (fin (1/2)) ∧
+    valueAt (ratio .toOverall .raise exT) ["k"] = some (fin (2/3)) ∧ (∀ q ∈ fins (vals exT ["k"]), (0 : Rat) ≤ q) := by
+  refine ⟨by decide +kernel, by decide +kernel, by decide +kernel⟩
+-- `difference_overall_nan` / the NaN branch of `groupMin_spec`: a stratum whose groups are all empty
+example : valueAt (groupMin .coerce ⟨0, [(["a"], .scalar nan), (["b"], .scalar nan)], [([], .scalar nan)], false⟩) [] = some nan ∧
+    valueAt (difference .toOverall .coerce ⟨0, [(["a"], .scalar nan), (["b"], .scalar nan)], [([], .scalar nan)], false⟩) [] = some nan := by
+  constructor <;> decide +kernel
+-- `raise_fails_coerce_answers`: a frame with a non-scalar cell
+example : hasNonscalar ⟨0, [(["a"], .nonscalar), (["b"], .scalar (fin 1))], [([], .nonscalar)], false⟩ = true := by decide +kernel
+-- `single_group`: exactly one non-empty group
+example : fins (vals ⟨0, [(["a"], .scalar (fin 3)), (["b"], .scalar nan)], [([], .scalar (fin 3))], false⟩ []) = [3] := by
+  decide +kernel
+
+/-- a dataset with one control feature (strata k, m), two sensitive groups in each stratum, weights
+    1 2 1 0 3 1 (one ZERO weight), predictions 1 0 1 1 0 1 -/
+def exRows : List (Row MetricPool.Dat) :=
+  [⟨⟨1, 1, 1, 0⟩, ["k"], ["a"]⟩, ⟨⟨0, 0, 2, 0⟩, ["k"], ["a"]⟩, ⟨⟨1, 1, 1, 0⟩, ["k"], ["b"]⟩,
+   ⟨⟨0, 1, 0, 0⟩, ["m"], ["a"]⟩, ⟨⟨1, 0, 3, 0⟩, ["m"], ["a"]⟩, ⟨⟨1, 1, 1, 0⟩, ["m"], ["b"]⟩]
+
+-- all hypotheses of `overall_le_between_of_weighted_mean_data` (and, but for the zero weight, of
+-- `overall_le_between_of_weighted_mean`) on real rows: ≥ 2 non-empty groups in each of 2 strata
+example : WF 1 1 exRows ∧ (∀ r ∈ exRows, 0 ≤ r.dat.p0) ∧
+    ["k"] ∈ strata (ofFrame 1 1 (wmean (·.pred)) exRows) := by
+  refine ⟨by decide, by decide +kernel, by decide +kernel⟩
+example : valueAt (difference .between .coerce (ofFrame 1 1 (wmean (·.pred)) exRows)) ["k"] = some (fin (2/3)) ∧
+    valueAt (difference .toOverall .coerce (ofFrame 1 1 (wmean (·.pred)) exRows)) ["k"] = some (fin (1/2)) ∧
+    valueAt (difference .between .coerce (ofFrame 1 1 (wmean (·.pred)) exRows)) ["m"] = some (fin 1) ∧
+    valueAt (difference .toOverall .coerce (ofFrame 1 1 (wmean (·.pred)) exRows)) ["m"] = some (fin (3/4)) := by
+  refine ⟨by decide +kernel, by decide +kernel, by decide +kernel, by decide +kernel⟩
+-- a group of total weight 0 is a NaN cell and is skipped (replayed on fairlearn: selection_rate,
+-- sample_weight=[0,0,1,1], groups a a b b -> by_group [nan, 0.5], both differences 0.0)
+example : (ofFrame 0 1 (wmean (·.pred)) [⟨⟨1, 1, 0, 0⟩, [], ["a"]⟩, ⟨⟨0, 0, 0, 0⟩, [], ["a"]⟩,
+      ⟨⟨1, 0, 1, 0⟩, [], ["b"]⟩, ⟨⟨0, 1, 1, 0⟩, [], ["b"]⟩]).byGroup = [(["a"], .scalar nan), (["b"], .scalar (fin (1/2)))] := by
+  decide +kernel
 
 end C02
